@@ -1,12 +1,41 @@
 """Per-property configuration of the check driver."""
+
+# verdict layout of step_verdict (coq/Monitors.v)
+NET, COMMIT, MEM, PROP, RES, STATE, HINT, FIRST = 1, 2, 3, 4, 5, 6, 7, 8
+M_C02, M_C03, M_C03G, M_C04, M_C05, M_C08, M_C09, M_C10, M_C15, M_C19 = 9, 10, 11, 12, 13, 14, 15, 16, 17, 18
+
+STEP_RULE = ('step mode: a real Core (+Synchronizer, MempoolDriver/PayloadWaiter, Proposer, Aggregator, RocksDB store) driven one dispatch at a time; '
+             'scripted corpus first (the C02 witnesses), then seeded cases: block trees with TC-justified gaps, forks, orphaned tips, TCs reporting rounds above '
+             'the block QC, locally shuffled/reversed delivery, payloads whose batches arrive before/after/never, votes, timeouts, TCs, timers, proposer digests, '
+             'committees of 2..10 members with equal or weighted (incl. zero) stakes, and a malformed stream (14 mutation kinds); '
+             'a case is non-trivial when the node voted or committed at least once; distinct = distinct event sequences')
+
+
+def step_run(agree, monitors, quick=160, thorough=3000):
+    return {'name': 'step', 'bin': 'step', 'mode': 'run', 'emit': 'step', 'quick': quick, 'thorough': thorough,
+            'agree': agree, 'monitors': monitors}
+
+
+NODE_VO = ['Node.vo', 'Corr.vo', 'Monitors.vo']
+STEP_ASSUME = ['symbolic hashing: SHA-512/256 collision-free on the modelled pre-images and never all-zero (licensed by the C20 pre-image theorems)',
+               'ideal signatures (EUF-CMA, strict verification) for Ed25519',
+               'every task is a sequential process fed by FIFO channels; tokio/mpsc/RocksDB behave as documented',
+               'harness abstraction: keys -> ranks, digests -> symbolic terms, signatures -> provenance (each classified by verifying it against the expected content)']
+
 PROPS = {
     'C17': {
-        'vo': ['Quorum.vo', 'CorrComp.vo'],
+        'vo': ['QuorumDefs.vo', 'Quorum.vo', 'CorrComp.vo'],
         'sites': ['g_quorum_consensus', 'g_quorum_mempool', 'g_quorum_consensus_u32', 'g_quorum_mempool_u32'],
-        'corr': [{'name': 'quorum', 'bin': 'comp', 'mode': 'quorum', 'quick': 300, 'thorough': 6000, 'monitors_from': 6}],
+        'corr': [{'name': 'quorum', 'bin': 'comp', 'mode': 'quorum', 'quick': 300, 'thorough': 6000, 'agree': [1, 2, 3, 4, 5], 'monitors': [6]}],
         'rule': 'stake vectors for committees of 1..10 members (equal, small with zeros, single dominant, total just below 2^31, totals around multiples of 3, random); '
                 'a case is non-trivial when it has more than one member or a total >= 4; distinct = distinct stake vectors',
         'assumptions': ['u32 arithmetic of rustc (wrapping in release, panicking in debug) as modelled by `u32`',
                         '`.sum()` over the authorities equals the list sum of the stakes (HashMap iteration order irrelevant)'],
+    },
+    'C02': {
+        'vo': NODE_VO,
+        'sites': ['g_commit_skip', 'g_commit_walk', 'g_commit_stop', 'g_commit_anc_front', 'g_commit_head_front', 'g_commit_pop_back', 'g_commit_head_first', 'g_two_chain'],
+        'corr': [step_run([COMMIT, STATE, RES], [M_C02])],
+        'rule': STEP_RULE, 'assumptions': STEP_ASSUME,
     },
 }
